@@ -17,7 +17,8 @@ pub fn run(_ctx: &Ctx, index_base: u64) -> Stats {
     // x {no body, a form body with folding on (with and without parameters)}: the path is taken apart and the URI
     // rebuilt when a form is folded
     let total = nseq * 4 * 3;
-    par_sweep(total, |i0, st| {
+    let st_names = well_known_names(index_base + total);
+    let st = par_sweep(total, |i0, st| {
         let form = i0 % 3;
         let i = i0 / 3;
         let seq = enumr::seq_decode(i / 4, k, 3);
@@ -61,5 +62,52 @@ pub fn run(_ctx: &Ctx, index_base: u64) -> Stats {
         }
         st.nontrivial(&(s3, &path, form, "e2e"));
         st.sample(i0, total, || json!({"e2e_path": path, "s3": s3}));
+    });
+    st.merge(st_names)
+}
+
+/// The mode is what the caller configured and nothing else: the server configured for every AWS service signing name
+/// and region code (opaque strings to the library) x both modes x paths whose normal form differs between the modes
+/// or does not exist in one of them.
+fn well_known_names(index_base: u64) -> Stats {
+    let regions = crate::checks::wellknown::regions();
+    let services = crate::checks::wellknown::services();
+    let paths = ["/photos//2015/./../cat.jpg", "/a/../../b", "/a/./b", "//", "/a//", "/%2e%2e/x", "/a/%2E/b/", "/plain/path"];
+    let (nr, ns, np) = (regions.len() as u64, services.len() as u64, paths.len() as u64);
+    let total = nr * ns * np * 2 * 2;
+    par_sweep(total, |i, st| {
+        let mut x = i;
+        let carrier = if x % 2 == 0 { Carrier::Header } else { Carrier::Query };
+        x /= 2;
+        let s3 = x % 2 == 1;
+        x /= 2;
+        let path = paths[(x % np) as usize];
+        x /= np;
+        let region = regions[(x % nr) as usize];
+        let service = services[(x / nr) as usize];
+        let mut plan = e2e::base_plan(carrier);
+        plan.wire_path = Some(path.to_string());
+        plan.canonical_path = Some(match canon_path(path, s3, false) {
+            Ok(p) => p.path,
+            Err(_) => "/".into(),
+        });
+        e2e::rekey(&mut plan, e2e::SECRET, region, service);
+        let built = build(&plan);
+        let mut cfg = Cfg::basic(e2e::base_instant());
+        cfg.s3 = s3;
+        cfg.region = region.into();
+        cfg.service = service.into();
+        let case = Case { wire: WireReq::from_wire(&built.wire), cfg, prov: ProvSpec::standard() };
+        let before = st.violations.len();
+        let j = e2e::judge_into(index_base + i, &case, st);
+        if st.violations.len() > before {
+            if let Some(v) = st.violations.last_mut() {
+                v.what = format!("server configured for ({:?}, {:?}), s3 mode {}:{}", region, service, s3, v.what);
+            }
+        }
+        if j.reference.accepted() {
+            st.state(&(s3, j.reference.canonical_path.clone()));
+        }
+        st.nontrivial(&(s3, path, region, service, carrier, "e2e-names"));
     })
 }
